@@ -9,7 +9,7 @@ NEC = ("Static analysis of the type-checked program (typed HIR of every function
        "It decides necessary structural conditions of the property, not the behaviour as a whole. ")
 
 FRONT_FRAME = ("error_container.rs", "build.rs", "semantic.rs", "lib.rs", "error.rs", "ast.rs", "table.rs", "parser.rs")
-PARSER_REF = " Every position a feature reports is built from Reference offsets: a Reference rebuilt by the parser carries the sum of the offsets it unwraps (FRAME S-ref in parser.rs / parser/utility.rs)."
+PARSER_REF = " Positions sent to the client are converted by as_position, whose column counts UTF-16 code units (TEXT-SYNC utf16). Every position a feature reports is built from Reference offsets: a Reference rebuilt by the parser carries the sum of the offsets it unwraps (FRAME S-ref in parser.rs / parser/utility.rs)."
 
 
 HANDLER_MODULES = ("goto", "references", "hover", "signature_help", "semantic_tokens", "completion", "fold", "formatting")
@@ -22,8 +22,21 @@ def feat(*mods):
         if "anchor" in i.tags:
             return True
         here = [m for m in HANDLER_MODULES if ("features::%s::" % m) in i.key or ("features/%s.rs" % m) in i.key]
+        if not here:
+            # shared helpers with a known set of users: the resolution context of doc_cursor is read by go-to, hover and references only
+            # (completion and signature help use its text and offset), get_local_table by semantic tokens and completion
+            for frag, users in SHARED_USERS.items():
+                if frag in i.key:
+                    return any(m in mods for m in users)
         return not here or any(m in mods for m in here)
     return f
+
+
+SHARED_USERS = {
+    "SCOPE-ORDER:features::doc_cursor:": ("goto", "hover", "references"),
+    "CURSOR-CMP:features::DocumentCursor::ident:": ("goto", "hover", "references"),
+    "features::get_local_table:": ("semantic_tokens", "completion"),
+}
 
 
 def nottag(*tags):
@@ -69,12 +82,14 @@ prop("C02", NEC + "Clauses: token-range to text-range conversions unwrap first()
      "predefined entries have the empty range); the process is terminated only at the three sanctioned places; "
      "ranges handed to String::replace_range are computed against the very text they are applied to (TEXT-SYNC batch clauses: a stale "
      "range is out of bounds or off a character boundary, and replace_range panics); the nesting depth of the tree, which every "
-     "recursive walk of the front end and of the handlers needs stack for, is bounded where the tree is built (RECURSION-BOUND; open known findings).",
+     "recursive walk of the front end and of the handlers needs stack for, is bounded where the tree is built (RECURSION-BOUND; open known findings); "
+     "the frame decoder slices the body only behind the guard on the very bound it slices with and takes no unguarded unsigned difference (CODEC: "
+     "a panic in the reader task ends the process).",
      [{"rule": "EMPTY-RANGE-GUARD", "floor": 2}, {"rule": "LOOKUP-NOPANIC", "floor": 14},
       {"rule": "ENTRY-GUARD", "floor": 6}, {"rule": "WHO-MAY", "filter": tag("exit"), "floor": 1},
       {"rule": "TOKEN-RANGE-SOURCE", "floor": 11}, {"rule": "INDEX-ELEM", "floor": 30},
       {"rule": "BUILTIN-SET", "floor": 3}, {"rule": "TEXT-SYNC", "filter": tag("batch", "clamp"), "floor": 6},
-      {"rule": "RECURSION-BOUND", "floor": 4}])
+      {"rule": "RECURSION-BOUND", "floor": 4}, {"rule": "CODEC", "floor": 7}, {"rule": "BROKER", "filter": tag("answer"), "floor": 1}])
 
 prop("C03", NEC + "Clauses: each of the 27 build/semantic message kinds has an emitting site under table::* and its own "
      "text (VARIANTS); every error is attached in the reference frame of the node that owns it and is shifted exactly "
@@ -87,7 +102,8 @@ prop("C03", NEC + "Clauses: each of the 27 build/semantic message kinds has an e
      [{"rule": "VARIANTS", "floor": 54}, {"rule": "MESSAGE-SITE", "floor": 32},
       {"rule": "FRAME", "filter": files(*FRONT_FRAME), "floor": 212},
       {"rule": "TRAVERSE", "filter": tag("errors", "analyze", "build"), "floor": 73}, {"rule": "EQ-COMPLETE", "floor": 43},
-      {"rule": "SCOPE-ORDER", "filter": tag("typescope", "semantic"), "floor": 5}, {"rule": "NOT-A-KIND", "floor": 3}])
+      {"rule": "SCOPE-ORDER", "filter": tag("typescope", "semantic"), "floor": 5}, {"rule": "NOT-A-KIND", "floor": 3},
+      {"rule": "KEYWORD-BOUNDARY", "floor": 3}])
 
 prop("C04", NEC + "Clauses: shape of the precedence-climbing parser (levels, loops, operand parsers, else binding) "
      "and agreement of parser levels with the operator classification used by the type checker (T5); raw token "
@@ -114,15 +130,18 @@ prop("C06", NEC + "Clauses: alt(..) order vs. prefix relation of static lexemes 
      "token payloads are input text, not assembled strings (LEX-MUNCH).",
      [{"rule": "TABLES", "filter": tag("T1", "T3"), "floor": 37}, {"rule": "EOF-ONCE", "floor": 3},
       {"rule": "TOKEN-RANGE-SOURCE", "floor": 11}, {"rule": "KEYWORD-BOUNDARY", "floor": 3}, {"rule": "COMMENT-LEX", "floor": 5},
-      {"rule": "RELEX-WINDOW", "filter": tag("lexinput"), "floor": 2}, {"rule": "LEX-MUNCH", "floor": 14}])
+      {"rule": "RELEX-WINDOW", "filter": tag("lexinput"), "floor": 2}, {"rule": "LEX-MUNCH", "floor": 15}])
 
 prop("C07", NEC + "Clauses: a token relocated to a new range relocates its lexical errors too (TOKEN-ERRORS); the "
      "look-ahead table covers every lexeme that a following character can extend (T2); byte, char and UTF-16 lengths "
      "are not mixed in the shift arithmetic (LEN-UNITS); re-lexed tokens are shifted by the offset the text was cut at and the "
      "change window is computed from head/new/tail lengths, result = head ++ new ++ tail ++ eof (RELEX-WINDOW); a comment that "
-     "can end with the text is re-lexed when text is appended behind it (COMMENT-LEX).",
+     "can end with the text is re-lexed when text is appended behind it (COMMENT-LEX); the look-ahead table knows how far a token kind "
+     "looks, which presupposes that no sub-lexer decides by peeking further: the character of a character literal is read context-free "
+     "(LEX-MUNCH anychar).",
      [{"rule": "TOKEN-ERRORS", "floor": 2}, {"rule": "TABLES", "filter": tag("T2"), "floor": 18},
-      {"rule": "LEN-UNITS", "filter": tag("arith"), "floor": 1}, {"rule": "RELEX-WINDOW", "floor": 8}, {"rule": "COMMENT-LEX", "floor": 5}])
+      {"rule": "LEN-UNITS", "filter": tag("arith"), "floor": 1}, {"rule": "RELEX-WINDOW", "floor": 8}, {"rule": "COMMENT-LEX", "floor": 5},
+      {"rule": "LEX-MUNCH", "filter": tag("anychar"), "floor": 1}])
 
 prop("C08", NEC + "Clauses: no content change is discarded, batched changes are converted against the advanced "
      "temporary text and applied to it, LSP columns advance by UTF-16 code units; lengths of different units are not mixed; "
@@ -142,7 +161,8 @@ prop("C09", NEC + "Clauses: operators are re-printed as the lexeme they were lex
      [{"rule": "TABLES", "filter": tag("T4"), "floor": 20}, {"rule": "TRAVERSE", "filter": tag("format"), "floor": 43},
       {"rule": "FRAME", "filter": files("formatting.rs"), "floor": 63}, {"rule": "FMT-PURE", "floor": 5},
       {"rule": "CHAR-ESCAPES", "floor": 2}, {"rule": "SLICE-FIRST", "floor": 20},
-      {"rule": "LEX-MUNCH", "filter": tag("payload"), "floor": 6}])
+      {"rule": "LEX-MUNCH", "filter": tag("payload"), "floor": 6},
+      {"rule": "TEXT-SYNC", "filter": tag("utf16"), "floor": 1}])
 
 prop("C10", NEC + "Clause: a composite node whose parser skips comments in front of several own tokens must re-attach all "
      "comments of its slice (COMMENT-PAIRING). Six composite Format impls violate it on the pinned tree (known findings). A comment must first of all be a comment token: "
@@ -152,8 +172,10 @@ prop("C10", NEC + "Clause: a composite node whose parser skips comments in front
 
 prop("C11", NEC + "Clauses: the printer does not read byte positions (output is a function of tree and token kinds), the "
      "indentation unit follows insertSpaces/tabSize, null is returned exactly on equality; character literals are printed only with "
-     "escapes the lexer reads back (CHAR-ESCAPES: otherwise the formatted text re-lexes differently and a second run changes it again).",
-     [{"rule": "FMT-PURE", "floor": 5}, {"rule": "CHAR-ESCAPES", "floor": 2}])
+     "escapes the lexer reads back (CHAR-ESCAPES: otherwise the formatted text re-lexes differently and a second run changes it again); the "
+     "all-comments helper is applied only to text whose parts print no comments themselves (COMMENT-PAIRING nested: otherwise every run adds "
+     "another copy of the inner comments in front of the node).",
+     [{"rule": "FMT-PURE", "floor": 5}, {"rule": "CHAR-ESCAPES", "floor": 2}, {"rule": "COMMENT-PAIRING", "filter": tag("nested"), "floor": 5}])
 
 prop("C12", NEC + "Clauses: an entry's name range is resolved against the token slice cut with that same entry's range "
      "(FRAME S7 in goto.rs / features.rs); inside a procedure the identifier is resolved local-then-global through a "
@@ -165,7 +187,8 @@ prop("C12", NEC + "Clauses: an entry's name range is resolved against the token 
       {"rule": "LOOKUP-NOPANIC", "filter": feat("goto"), "floor": 8}, {"rule": "BUILTIN-SET", "floor": 3}, {"rule": "POS-CONV", "filter": feat("goto"), "floor": 8},
        {"rule": "IDENT-RANGE", "filter": both(tag("identexact"), feat("goto")), "floor": 1},
       {"rule": "CURSOR-CMP", "filter": feat("goto"), "floor": 0},
-      {"rule": "FRAME", "filter": files("parser.rs", "utility.rs"), "floor": 3}])
+      {"rule": "FRAME", "filter": files("parser.rs", "utility.rs"), "floor": 3},
+      {"rule": "TEXT-SYNC", "filter": tag("utf16"), "floor": 1}])
 
 prop("C13", NEC + "Clauses: the finder walkers descend into every statement/expression/type shape that can contain what "
      "they collect (TRAVERSE); every identifier found is shifted once per Reference crossed (FRAME in references.rs); "
@@ -176,7 +199,8 @@ prop("C13", NEC + "Clauses: the finder walkers descend into every statement/expr
       {"rule": "SCOPE-ORDER", "filter": both(feat("references"), nottag("typescope", "semantic")), "floor": 10}, {"rule": "IDENT-RANGE", "filter": feat("references"), "floor": 3}, {"rule": "POS-CONV", "filter": feat("references"), "floor": 4},
        {"rule": "BSEARCH-MONO", "floor": 1},
       {"rule": "CURSOR-CMP", "filter": feat("references"), "floor": 0},
-      {"rule": "FRAME", "filter": files("parser.rs", "utility.rs"), "floor": 3}])
+      {"rule": "FRAME", "filter": files("parser.rs", "utility.rs"), "floor": 3},
+      {"rule": "TEXT-SYNC", "filter": tag("utf16"), "floor": 1}])
 
 prop("C14", NEC + "Clauses: the call statement is located with node, origin and token slice in one frame on every step of "
      "the descent (FRAME in signature_help.rs) through every statement shape that can contain a call (TRAVERSE); hover "
@@ -189,7 +213,8 @@ prop("C14", NEC + "Clauses: the call statement is located with node, origin and 
       {"rule": "TRAVERSE", "filter": tag("calls"), "floor": 18}, {"rule": "SCOPE-ORDER", "filter": both(feat("hover", "signature_help"), nottag("typescope", "semantic")), "floor": 10},
       {"rule": "DISPLAY-FIELDS", "floor": 6}, {"rule": "IDENT-RANGE", "filter": feat("hover", "signature_help"), "floor": 4}, {"rule": "POS-CONV", "filter": feat("hover", "signature_help"), "floor": 4},
       {"rule": "CURSOR-CMP", "filter": feat("hover", "signature_help"), "floor": 1}, {"rule": "DOC-FLOW", "floor": 1},
-      {"rule": "FRAME", "filter": files("parser.rs", "utility.rs"), "floor": 3}])
+      {"rule": "FRAME", "filter": files("parser.rs", "utility.rs"), "floor": 3},
+      {"rule": "TEXT-SYNC", "filter": tag("utf16"), "floor": 1}])
 
 prop("C15", NEC + "Clauses: legend order = enum discriminants (T6); token positions of different units/frames are not "
      "compared and declaration slices are cut in the right frame (FRAME in semantic_tokens.rs); token lengths are UTF-16 "
@@ -197,7 +222,8 @@ prop("C15", NEC + "Clauses: legend order = enum discriminants (T6); token positi
      "classified through the local-then-global LookupTable (SCOPE-ORDER)." + PARSER_REF,
      [{"rule": "TABLES-SEMTOK", "floor": 24}, {"rule": "FRAME", "filter": files("semantic_tokens.rs"), "floor": 7},
       {"rule": "LEN-UNITS", "filter": tag("lsp"), "floor": 1}, {"rule": "SEMTOK-PAIRING", "floor": 9},
-      {"rule": "SCOPE-ORDER", "filter": both(feat("semantic_tokens"), nottag("typescope", "semantic")), "floor": 9}, {"rule": "FRAME", "filter": files("parser.rs", "utility.rs"), "floor": 3}])
+      {"rule": "SCOPE-ORDER", "filter": both(feat("semantic_tokens"), nottag("typescope", "semantic")), "floor": 9}, {"rule": "FRAME", "filter": files("parser.rs", "utility.rs"), "floor": 3},
+      {"rule": "TEXT-SYNC", "filter": tag("utf16"), "floor": 1}])
 
 prop("C16", NEC + "Clauses: every token slice / node pair that drives the position classification is in one frame (FRAME "
      "in completion.rs); variables are proposed from the LookupTable of the procedure that contains the cursor (SCOPE-ORDER); "
@@ -206,7 +232,7 @@ prop("C16", NEC + "Clauses: every token slice / node pair that drives the positi
      "the statement the cursor is located in are determined without the comments in front of the cursor / statement (POSITION-TOKEN)." + PARSER_REF,
      [{"rule": "FRAME", "filter": files("completion.rs"), "floor": 18}, {"rule": "SCOPE-ORDER", "filter": both(feat("completion"), nottag("typescope", "semantic")), "floor": 5},
       {"rule": "KIND-FILTER", "floor": 7}, {"rule": "NO-MERGE", "floor": 24}, {"rule": "POSITION-TOKEN", "floor": 3},
-      {"rule": "CURSOR-CMP", "filter": both(feat("completion"), lambda i: "DocumentCursor::ident" not in i.key), "floor": 0},
+      {"rule": "CURSOR-CMP", "filter": feat("completion"), "floor": 0},
       {"rule": "FRAME", "filter": files("parser.rs", "utility.rs"), "floor": 3}])
 
 prop("C17", NEC + "Clause: the procedure's token range is made absolute with the offset of the Reference it was reached "
@@ -214,17 +240,22 @@ prop("C17", NEC + "Clause: the procedure's token range is made absolute with the
      "procedure's byte range (POS-CONV); exactly the Procedure declarations are kept, each mapped 1:1, nothing removed "
      "afterwards (ONE-PER-ITEM); the document the ranges are computed from is the client's: batched changes are converted and "
      "applied in the order sent (TEXT-SYNC batch, UPDATE-ORDER); a procedure extends to the next `proc`/`type` *token*, so `proc` is a keyword "
-     "only as a whole word (KEYWORD-BOUNDARY)." + PARSER_REF,
+     "only as a whole word (KEYWORD-BOUNDARY); these tokens are the incrementally maintained ones: a token that a change can extend is "
+     "lexed again (T2 look-ahead table and its use) and the re-lexed window is spliced at the right offsets (RELEX-WINDOW)." + PARSER_REF,
      [{"rule": "FRAME", "filter": files("fold.rs"), "floor": 2}, {"rule": "POS-CONV", "filter": feat("fold"), "floor": 6},
       {"rule": "ONE-PER-ITEM", "floor": 3}, {"rule": "SLICE-FIRST", "floor": 20}, {"rule": "BSEARCH-MONO", "floor": 1},
       {"rule": "KEYWORD-BOUNDARY", "floor": 3}, {"rule": "TEXT-SYNC", "filter": tag("batch"), "floor": 4},
-      {"rule": "UPDATE-ORDER", "floor": 3}, {"rule": "FRAME", "filter": files("parser.rs", "utility.rs"), "floor": 3}])
+      {"rule": "UPDATE-ORDER", "floor": 3}, {"rule": "FRAME", "filter": files("parser.rs", "utility.rs"), "floor": 3},
+      {"rule": "TEXT-SYNC", "filter": tag("utf16"), "floor": 1}, {"rule": "TABLES", "filter": tag("T2"), "floor": 18},
+      {"rule": "RELEX-WINDOW", "floor": 8}])
 
 prop("C18", NEC + "Clauses: every path through every Request arm of the three phase loops splits the request, "
      "turns the PreparedResponse into exactly one Response and sends it; phase x situation -> error code table; "
      "exit handling per phase; senders released before the tasks are joined; end of input falls through to Ok(()); "
-     "responses can only be built from the request's PreparedResponse; JSON-RPC error code numbers.",
+     "responses can only be built from the request's PreparedResponse; JSON-RPC error code numbers; the broker answers a handler's "
+     "document query on every path, so that `document not open` is an answer (null) and not an error that ends the reader loop (BROKER answer).",
      [{"rule": "LIFECYCLE", "floor": 97}, {"rule": "WHO-MAY", "floor": 11}, {"rule": "TABLES-ERRCODE", "floor": 4},
+      {"rule": "BROKER", "filter": tag("answer"), "floor": 1},
       {"rule": "SEND-AWAIT", "floor": 11}])
 
 prop("C19", NEC + "Clauses: decode consumes nothing before its last `Ok(None)`, slices the body only behind the "
